@@ -414,6 +414,8 @@ def run(tier):
     progs = programs(tier)
     nshards = 128 if tier == "quick" else 512
     parallel.run_shards(shard, [progs[i::nshards] for i in range(nshards) if progs[i::nshards]], report=report)
+    from checks import c03_locations
+    c03_locations.run(tier, report)
     return report
 
 
@@ -431,6 +433,9 @@ def extra_evidence(report, tier):
 
 def replay(case):
     report = Report()
+    if case.get("kind") == "two_locations":
+        from checks import c03_locations
+        return c03_locations.replay(case)
     check_program(case["spec"], case["configs"], report)
     for v in report.violations.values():
         return v["what"]
